@@ -86,6 +86,7 @@ package multiendpoint
 //@   ensures [C14.delay-holds] c14DelayHolds(me)
 //@   ensures [C14.no-downgrade] c14NoDowngrade(me)
 //@   ensures [C14.no-extend] !avail && old(e in me.endpoints && me.endpoints[e].status == recovering) ==> me.endpoints[e].status == recovering && me.endpoints[e].lastChange == old(me.endpoints[e].lastChange)
+//@   ensures [C13,C14 no-reopen] !avail && old(e in me.endpoints && me.endpoints[e].status != available) ==> me.endpoints[e].status == old(me.endpoints[e].status) && me.endpoints[e].lastChange == old(me.endpoints[e].lastChange)
 //@   ensures [C14.available-cancels] avail && old(e in me.endpoints) ==> me.endpoints[e].status == available
 //@   ensures [C13.members-kept] forall id string :: (id in me.endpoints) == old(id in me.endpoints)
 //@ func (me *multiEndpoint) maybeUpdateCurrent
